@@ -353,6 +353,42 @@ func cmdC13(args []string) {
 			ctxs = append(ctxs, cx)
 		}
 		ev["ctx"] = ctxs
+		// ... and in configurations that are unacceptable for a reason that has nothing to do with the pattern (another field, the
+		// extra configuration): every problem is reported, so a defective pattern is still named - and a valid one never is
+		octx := []map[string]any{}
+		others := []cors.Config{
+			{ExtraConfig: cors.ExtraConfig{PrivateNetworkAccess: true, PrivateNetworkAccessInNoCORSModeOnly: true}},
+			{ExtraConfig: cors.ExtraConfig{PreflightSuccessStatus: 199 + 101*(n%2)}},
+			{MaxAgeInSeconds: -2 - n%3},
+			{Methods: []string{"PUT", "GE T"}},
+			{RequestHeaders: []string{"X-Ok", "bad header"}},
+			{ResponseHeaders: []string{"*"}, Credentialed: true},
+			{ResponseHeaders: []string{"X-Ok", "Set-Cookie"}, Methods: []string{"CONNECT"}, MaxAgeInSeconds: 86401, ExtraConfig: cors.ExtraConfig{PreflightSuccessStatus: 404}},
+		}
+		for oi, oc := range others {
+			oc.ExtraConfig.DangerouslyTolerateSubdomainsOfPublicSuffixes = true
+			oc.ExtraConfig.DangerouslyTolerateInsecureOrigins = true
+			oc.Origins = [][]string{{s}, {"https://ctx.example", s}, {s, "https://ctx.example"}}[(n+oi)%3]
+			cx := map[string]any{"k": oi, "accepted": false, "named": false, "panicked": false}
+			func() {
+				defer func() {
+					if p := recover(); p != nil {
+						cx["panicked"] = true
+					}
+				}()
+				_, err := cors.NewMiddleware(oc)
+				cx["accepted"] = err == nil
+				if err != nil {
+					for e := range cfgerrors.All(err) {
+						if x, ok := e.(*cfgerrors.UnacceptableOriginPatternError); ok && x != nil && x.Value == s {
+							cx["named"] = true
+						}
+					}
+				}
+			}()
+			octx = append(octx, cx)
+		}
+		ev["octx"] = octx
 		t.emit(ev)
 		n++
 		if len(samples) < 4 && n%997 == 3 {
